@@ -528,3 +528,104 @@ def bare_styles(sx, p):
     else:
         ok.append([c.text for c in resp] == [T(x) for x in xs])
     return sx.And(*ok)
+
+
+# ---------------------------------------------------------------- the Spyne client: call styles, loopback, response headers
+from spyne.client import RemoteProcedureBase
+
+
+class CTrace(ComplexModel):
+    __namespace__ = TNS
+    tid = Integer
+    note = Unicode
+
+
+class ClientSvc(Service):
+    __out_header__ = CTrace
+
+    @rpc(Integer, Unicode, Decimal, Boolean, _returns=Unicode)
+    def record(ctx, n, s, amount, flag):
+        CAP['args'] = (n, s, amount, flag)
+        ctx.out_header = CTrace(tid=n, note=s)
+        return s
+
+
+CAPPS2 = {}
+
+
+def _client_app(pname):
+    if pname not in CAPPS2:
+        P = PROTS[pname]
+        app = Application([ClientSvc], TNS, in_protocol=P(validator='soft'), out_protocol=P())
+        CAPPS2[pname] = (app, ServerBase(app))
+    return CAPPS2[pname]
+
+
+class _Loopback(RemoteProcedureBase):
+    """in-process transport: the request bytes go through the real server pipeline, the response bytes come back"""
+    def __call__(self, *args, **kwargs):
+        from spyne.server import ServerBase as _SB
+        ctx = self.contexts[0]
+        self.get_out_object(ctx, args, kwargs)
+        self.get_out_string(ctx)
+        server = _SB(self.app)
+        sctx = MethodContext(server, MethodContext.SERVER)
+        sctx.in_string = [b''.join(ctx.out_string)]
+        sctx, = server.generate_contexts(sctx)
+        server.get_in_object(sctx)
+        if sctx.in_error is None:
+            server.get_out_object(sctx)
+        server.get_out_string(sctx)
+        self.wire = b''.join(sctx.out_string)
+        ctx.in_string = [self.wire]
+        self.get_in_object(ctx)
+        self.ctx = ctx
+        return ctx.in_object
+
+
+@harness('C01', params=sorted(PROTS), functions=['spyne.client._base.RemoteProcedureBase.get_out_object',
+                                                'spyne.client._base.RemoteProcedureBase.get_in_object',
+                                                'spyne.protocol.soap.soap11.Soap11.serialize'],
+         bounds={'call': 'a four-argument method called through the Spyne client with k = 0..4 leading positional arguments and any '
+                         'subset of the remaining ones by keyword; values symbolic (|n| <= 99, 2-char string, decimal d.d, boolean); '
+                         'symbolic part: argument marshalling; every witness: full loopback through the real server, the response and '
+                         '(SOAP) the response header decoded by the client'})
+def client_call_styles(sx, pname):
+    """the function receives what the client was given, however the arguments are spelled (positional, keyword or mixed),
+    the client decodes the returned value, and a response header set by the function arrives in the envelope's own
+    namespace"""
+    app, server = _client_app(pname)
+    names = ['n', 's', 'amount', 'flag']
+    vals = {'n': sx.int('n', -99, 99), 's': sx.text('s', 2, alphabet='ab&'), 'amount': sx.decimal('amount', 2, -1),
+            'flag': sx.bool('flag')}
+    k = sx.choose('positional', [0, 1, 2, 3, 4])
+    args = tuple(vals[x] for x in names[:k])
+    kwargs = {}
+    for x in names[k:]:
+        if sx.choose('kw_' + x, [1, 0]):
+            kwargs[x] = vals[x]
+    want = [vals[x] if (i < k or x in kwargs) else None for i, x in enumerate(names)]
+    rp = _Loopback('http://loopback/', app, 'record')
+    if sx.symbolic:
+        ctx = rp.contexts[0]
+        rp.get_out_object(ctx, args, kwargs)
+        got = ctx.out_object
+        return len(got) == 4 and sx.And(*[(g is None) if w is None else sx.eq(g, w) for g, w in zip(got, want)])
+    CAP.clear()
+    ret = rp(*args, **kwargs)
+    if 'args' not in CAP:
+        return False
+    ok = [list(CAP['args']) == want, ret == want[1]]
+    if pname != 'XmlDocument':
+        from lxml import etree
+        root = etree.fromstring(rp.wire)
+        hdr = root.find('{%s}Header' % SOAP_ENV[pname])
+        if hdr is None:
+            return False
+        t = hdr.find(q('CTrace'))
+        ok.append(t is not None and t.findtext(q('tid')) == (None if want[0] is None else str(want[0]))
+                  and (t.findtext(q('note')) or None) == (want[1] or None))
+        ih = rp.ctx.in_header
+        ih = ih[0] if isinstance(ih, (list, tuple)) and ih else ih
+        ok.append(ih is not None and ih.tid == want[0])
+    return all(ok)
